@@ -4,7 +4,7 @@ from ..rprog import gen_store_case, run_case, mk_filter, mk_item, item_uid
 
 ID = 'C07'
 SHRINK_KEEP = ('item',)   # item uids stay unique while a failing history is minimised
-TIERS = {'quick': {'runs': 16000, 'budget_s': 30}, 'thorough': {'runs': 1000000, 'budget_s': 600}}
+TIERS = {'quick': {'runs': 36000, 'budget_s': 30}, 'thorough': {'runs': 1000000, 'budget_s': 600}}
 RULE = ('generated histories of put/get with amounts / unique items / priorities / filters, patience (request | timeout '
         'then cancel), with-blocks, external interrupts, on Container / Store / PriorityStore / FilterStore with '
         'capacities 1-4 or unbounded and initial levels; non-trivial = at least one request had to wait; distinct = '
